@@ -33,6 +33,7 @@ def parseOp : List String → Option Op
   | ["resolve", p, v] => do pure (.resolve (← p.toNat?) (← v.toInt?))
   | ["reject", p, e] => do pure (.reject (← p.toNat?) (← e.toNat?))
   | ["all", ps] => do pure (.whenAll (← (ps.splitOn ",").mapM String.toNat?))
+  | ["allr", ps] => do pure (.whenAll (← (ps.splitOn ",").mapM String.toNat?))   -- iterator-range whenAll: same contract
   | ["any", ps] => do pure (.whenAny (← (ps.splitOn ",").mapM String.toNat?))
   | _ => none
 
